@@ -34,6 +34,7 @@ NULL = '/dev/null'
 STEPS = ['read-base', 'read-local', 'read-remote', 'diff-local', 'diff-remote', 'decide', 'apply', 'serialise', 'open-output',
          'write-1', 'write-2', 'write-3', 'close']
 PRE_OUTPUT = set(STEPS[:STEPS.index('open-output')])
+COMPUTE_STEPS = {'read-base', 'read-local', 'read-remote', 'diff-local', 'diff-remote', 'decide', 'apply'}
 FAULTS = ['EIO', 'MemoryError', 'KeyboardInterrupt', 'short-write', 'kill']
 PREVIOUS = '{"previous": "content that must survive an early failure"}\n'
 
@@ -463,7 +464,10 @@ def _shard(sh, ctx):
         ctx.sample({'scenario': sc['name'], 'entry': entry, 'status': res['status'], 'steps': steps_here}, rank=(sidx, entry))
         n = 0
         # "before the result is written" = the steps this very run passes before it opens the output
+        # plus every step that computes the result: nothing can have been written while the result does not exist yet, wherever the implementation chooses
+        # to open the file (only the position of `serialise` relative to `open-output` is taken from the run: --decisions dumps straight into the file)
         pre_output = set(steps_here[:steps_here.index('open-output')]) if 'open-output' in steps_here else set(steps_here)
+        pre_output |= COMPUTE_STEPS & set(steps_here)
         for step in steps_here:
             for fault in FAULTS:
                 if fault == 'short-write' and not step.startswith('write'):
